@@ -447,6 +447,8 @@ func (g *racGen) call(n *XNode) gval {
 		return gval{"(-" + g.flt(A(0)) + ")", types.Typ[types.Float64], "flt"}
 	case "nvars":
 		return gval{"govcB(len(" + g.item(A(0)) + ".Variables()))", nil, "big"}
+	case "var_at":
+		return gval{g.item(A(0)) + ".Variables()[govcI(" + g.big(A(1)) + ")]", types.Typ[types.String], "str"}
 	case "enc_len":
 		return gval{"govcB(len(" + g.item(A(0)) + ".ToBytes()))", nil, "big"}
 	case "enc_at":
